@@ -129,7 +129,7 @@ pub trait RestartStrategy<A: Actor> {
     fn refresh(actor: A, ctx: &mut Context<A>, Tracked(w): Tracked<&mut World>) -> (r: DynResult<A>)
         requires old(w).lc.ph is Running, old(w).lc.restart_pending, old(w).lc.pending is None, old(w).lc.gid == actor.gid(),   // @ob refresh.pre C07
         ensures
-            ctx_stable(old(ctx), final(ctx)),                                                                                   // @ob refresh.a-restart-releases-no-child-and-keeps-the-links C16,C15,C05
+            ctx_stable(old(ctx), final(ctx)),                                                                                   // @ob refresh.a-restart-releases-no-child-and-keeps-the-links C16,C15,C05,C07,C09
             Self::kind() is Ignore ==> r is Ok && r->Ok_0.gid() == actor.gid() && same_world(old(w), final(w)),                 // @ob refresh.nonrestartable-ignores C07
             !(Self::kind() is Ignore) ==> (r is Ok ==> final(w).lc.ph is Running && final(w).lc.pending is None && final(w).lc.gid == r->Ok_0.gid()
                     && final(w).lc.stream == old(w).lc.stream && final(w).lc.run_slot == old(w).lc.run_slot && final(w).lc.inc == old(w).lc.inc + 1 && final(w).cfg_timeout == old(w).cfg_timeout),   // @ob refresh.new-incarnation-started C07,C03,C17,C02,C04,C06
@@ -139,3 +139,6 @@ pub trait RestartStrategy<A: Actor> {
             Self::kind() is Fresh ==> (r is Ok ==> final(w).lc.recreated == old(w).lc.recreated + 1),                            // @ob refresh.recreate-uses-default C07
     ;
 }
+// `Default::default()` where a ContextID is expected: the id counter's contract (proved in unit envctor: `contextid.default-issues-a-fresh-id`)
+pub trait DefaultV: Sized { spec fn is_default(&self) -> bool; fn default_value() -> (r: Self) ensures r.is_default(); }
+impl DefaultV for ContextID { open spec fn is_default(&self) -> bool { fresh_context_id(self.0 as int) } fn default_value() -> (r: Self) { ContextID::default() } }
